@@ -693,7 +693,7 @@ fn main() {
     if vac { machinery_error("vacuous exploration: no oob panics observed or no transitions"); }
     rep.finish(&cfg, "model_checking",
         "BFS over (root, canonical contents); in every state all view recipes (0-2 nested slice/slice_mut steps over every sub-rectangle incl. one-past-bounds, all range spellings on the first level, direct Slice2::new/MutSlice2::new roots with strides/surplus) x all read ops are compared with a Vec model; every transition = recipe x write op on the real types followed by a full backing-store comparison. distinct_nontrivial = distinct states whose invariant was evaluated.",
-        &["Views have no hidden state besides (dims, stride, borrowed data), so successor states are rebuilt from canonical contents", "zero-area carve-outs as stated in the property"]);
+        &["Views have no hidden state besides (dims, stride, borrowed data), so successor states are rebuilt from canonical contents", "in-bounds empty rectangles are valid views (like &v[len..len]); only row-indexing a zero-width view may panic (the statement lets rows() yield fewer than height() rows there), counted as zero-width-row-index-panics"]);
 }
 
 fn parse_root(s: &str) -> Root {
